@@ -577,6 +577,7 @@ func buildProgIndex(c *core.Ctx) {
 		}
 		return f
 	}
+	wrapped := map[*ssa.Function][]*ssa.Function{}
 	for _, fn := range c.P.AllFunctions() {
 		if !load.InModule(fn) {
 			continue
@@ -592,7 +593,7 @@ func buildProgIndex(c *core.Ctx) {
 						callee = cc.Value
 						if sc := cc.StaticCallee(); sc != nil {
 							if fn.Synthetic != "" {
-								ix.asValue[origin(sc)] = true // wrapper / bound method: may be called dynamically
+								wrapped[fn] = append(wrapped[fn], origin(sc))
 							} else if !isInstance(fn) {
 								ix.callers[origin(sc)] = append(ix.callers[origin(sc)], ci)
 							}
@@ -607,6 +608,16 @@ func buildProgIndex(c *core.Ctx) {
 						ix.asValue[origin(f)] = true
 					}
 				}
+			}
+		}
+	}
+	// a synthetic wrapper (pointer-receiver wrapper, bound-method closure, thunk) makes
+	// the method it wraps dynamically callable only if the wrapper itself is used as a
+	// value somewhere; interface dispatch is covered by `invoked`
+	for w, ms := range wrapped {
+		if ix.asValue[w] || ix.asValue[origin(w)] {
+			for _, m := range ms {
+				ix.asValue[m] = true
 			}
 		}
 	}
